@@ -117,8 +117,9 @@ func floorLog2(n int) int {
 // refSet is a reference sorted set of Elem under a comparator that looks at
 // Key/div only.
 type refSet struct {
-	div int
-	es  []Elem
+	div  int
+	wide int // if > 0 the comparator returns wide*(difference) instead of -1/0/+1
+	es   []Elem
 }
 
 func (r *refSet) class(k int) int {
@@ -138,6 +139,9 @@ func floorDiv(a, b int) int {
 
 func (r *refSet) cmp(a, b Elem) int {
 	x, y := r.class(a.Key), r.class(b.Key)
+	if r.wide > 0 {
+		return r.wide * (x - y)
+	}
 	switch {
 	case x < y:
 		return -1
@@ -187,5 +191,74 @@ func (r *refSet) remove(k int) bool {
 }
 
 func (r *refSet) clone() *refSet {
-	return &refSet{div: r.div, es: append([]Elem(nil), r.es...)}
+	return &refSet{div: r.div, wide: r.wide, es: append([]Elem(nil), r.es...)}
+}
+
+// rebuildAtSize forces the delete-side whole-tree rebuild to run at exactly
+// size s: a tree bulk-built from n keys (beta chosen so that the rebuild
+// threshold is max/2 or max/4) is drained from one end until Len drops below
+// the threshold. It returns the tree, the remaining keys (ascending) and
+// whether Len/Remove results were as expected on the way.
+func rebuildAtSize(s, beta int, fromLow bool, step func()) (t *stree.Tree[Elem], remaining []int, problem string) {
+	// threshold bw = (max*beta + 1000) / 2000; choose n so that the first size below bw is s
+	n := 0
+	for cand := s + 1; cand <= 8*s+16; cand++ {
+		if bw := (cand*beta + 1000) / 2000; bw == s+1 {
+			n = cand
+			break
+		}
+	}
+	if n == 0 {
+		return nil, nil, ""
+	}
+	keys := make([]Elem, n)
+	for i := range keys {
+		keys[i] = Elem{Key: 2 * i, Tag: i + 1}
+	}
+	t = stree.New(beta, cmpElem, keys...)
+	lo, hi := 0, n
+	for t.Len() > s {
+		k := 2 * lo
+		if !fromLow {
+			k = 2 * (hi - 1)
+		}
+		if !t.Remove(Elem{Key: k}) {
+			return t, nil, "Remove of a present key reports false"
+		}
+		if fromLow {
+			lo++
+		} else {
+			hi--
+		}
+		if t.Len() != hi-lo {
+			return t, nil, "Len after Remove is wrong"
+		}
+		step()
+	}
+	for i := lo; i < hi; i++ {
+		remaining = append(remaining, 2*i)
+	}
+	return t, remaining, ""
+}
+
+// rebuildSizes returns the sizes at which the rebuild sweep runs: every size up
+// to small, and a window around every power of two up to 2^maxPow.
+func rebuildSizes(small, maxPow int) []int {
+	seen := map[int]bool{}
+	var out []int
+	add := func(s int) {
+		if s >= 1 && !seen[s] {
+			seen[s] = true
+			out = append(out, s)
+		}
+	}
+	for s := 1; s <= small; s++ {
+		add(s)
+	}
+	for k := 1; k <= maxPow; k++ {
+		for d := -3; d <= 3; d++ {
+			add(1<<k + d)
+		}
+	}
+	return out
 }
